@@ -81,7 +81,9 @@ static void check_wf(int ncols, int nrows)
 #ifdef FN_addcol
 /* every array has room for one more column in this group: no growth step is expected (excluded by construction and asserted
  * unreachable, like the cut of matrix_addrow_end in the addrow groups) */
+#ifndef FULL
 void *realloc(void *p, size_t n) { __CPROVER_assert(0, "addcol/room1: no array growth is expected (room for one more column everywhere)"); __CPROVER_assume(0); return p; }
+#endif
 /* ---- mpq_ILLlib_addcol (lib.c, REAL, with the real static matrix_addcol) from the same start state ----
  * The new column: cnt <= 1 entries with an arbitrary row index (possibly invalid), arbitrary objective coefficient and
  * bounds, a name that may collide.  No basis is passed.
@@ -96,10 +98,22 @@ void harness(void)
 	qsv_init_globals();
 	build();
 	/* room for one more structural column (the growth step by EXTRA_COLS = 100 is not part of this group) */
+#ifdef FULL
+	/* addcol/grow1: every per-column array is full (colsize == ncols by build(), structsize == nstruct here): the call must grow
+	 * lower / upper / obj, structmap, colnames, the integer marks (when present) and the matrix's column arrays */
+	O->colnames = qsv_alloc(sizeof(char *) * NS); O->colnames[0] = 0; O->colnames[1] = 0;
+	O->intmarker = nondet_bool() ? qsv_alloc(NS) : 0; if (O->intmarker) { O->intmarker[0] = 1; O->intmarker[1] = 0; }
+#else
 	{ int *sm = qsv_alloc(sizeof(int) * (NS + 1)); sm[0] = O->structmap[0]; sm[1] = O->structmap[1]; O->structmap = sm; O->structsize = NS + 1; }
 	O->colnames = qsv_alloc(sizeof(char *) * (NS + 1)); O->colnames[0] = 0; O->colnames[1] = 0; O->colnames[2] = 0; O->intmarker = 0;
+#endif
 	lp = qsv_mk_lpinfo(O);
-	cnt = pick(0, 1); ind[0] = pick(0, 2) - 1; vv = pick(1, 5); qsv_setnum(val[0], vv);
+#ifdef ACNT
+	cnt = ACNT;	/* compile-time entry count: keeps the matrix's own realloc test (matfree < cnt + 1) decidable during symbolic execution */
+#else
+	cnt = pick(0, 1);
+#endif
+	ind[0] = pick(0, 2) - 1; vv = pick(1, 5); qsv_setnum(val[0], vv);
 	qsv_setnum(obj, objv); qsv_setnum(lo, lov); qsv_setnum(up, upv);
 	g_name_collides = nondet_bool();
 	if ((cnt == 1 && (ind[0] < 0 || ind[0] >= NR0)) || g_name_collides) valid = 0;
@@ -117,9 +131,18 @@ void harness(void)
 		v = lookup(0, NC0, &f); ASSERT(f == (cnt == 1) && (!f || v == vv) && O->nzcount == nz0 + cnt, "C06: the new column has exactly the coefficient given");
 		for (j = 0; j < NS; j++) { v = lookup(0, smap[j], &f); ASSERT(f == S[0][j] && (!f || v == D[0][j]) && O->structmap[j] == smap[j] && NUMV(O->obj[smap[j]]) == j + 10 && NUMV(O->upper[smap[j]]) == 50 + j, "C06: every old column keeps its coefficients, objective, bounds and place"); }
 		ASSERT(NUMV(O->rhs[0]) == rhs0 && O->sense[0] == sense0 && O->rowmap[0] == (smap[0] == 0 ? 2 : 0), "C06: the row keeps rhs, sense and logical column");
+#ifdef FULL
+		ASSERT(O->structsize >= NS + 1 && O->colsize >= NC0 + 1 && O->A.matcolsize >= NC0 + 1, "C06: the capacities recorded cover the new column");
+		ASSERT(O->intmarker == 0 || (O->intmarker[0] == 1 && O->intmarker[1] == 0 && O->intmarker[NS] == 0), "C06: the integer marks of the old columns are kept and the new column is continuous");
+#endif
 	}
+#if defined(ACNT) && ACNT == 0
+	COVER_MUST(rv == 0 && cnt == 0, "added");
+	COVER_MUST(rv != 0, "bad_row_index");
+#else
 	COVER_MUST(rv == 0 && cnt == 1, "added");
 	COVER_MUST(rv != 0 && !g_name_collides, "bad_row_index");
+#endif
 	REACH_END();
 }
 #else
